@@ -4,6 +4,37 @@ import json, os
 HERE = os.path.dirname(os.path.dirname(os.path.abspath(__file__)))
 
 CHECKS = {
+ "C08": dict(
+    technique="index-kind and triangularity rules on the sweep loops, sympy (non-commutative for blocks) normal forms of the row updates and of init_numeric+apply as linear operators, CFG must-pass rules (filter_cor follows, output defined, input const), freshness typestate for members derived from matrix values",
+    text="Decides for all matrices, vectors, omega and init/apply histories: SOR/SSOR sweeps (CSR and BCSR) are triangular with the diagonal read at the stopping position and equal the textbook row update; SSOR is scaled once by omega(2-omega) and SOR not; Jacobi/Scale/Diagonal/Matrix/Polynomial apply equal their operator formulas symbolically; ILU solve loops and init order are right; every normal exit of apply is preceded by filter_cor on the output, the input is never written, the output is defined on every path; every member derived from matrix values is rewritten on every path through init_numeric, init_symbolic reads structure only; all documented factory overloads instantiate.",
+    note="Trusted: clang front end, featx facts, lib/pcmodel.py, lib/pcsym.py, sympy. Not decided: bodies of the ILU factorisation, solve_ilt/dut, Schwarz/Uzawa/Vanka/AmaVanka, CUDA/MKL back ends, numerical equality with dense solves.",
+    design="§4 C08"),
+ "C09": dict(
+    technique="regular-language equality between the event language of the cycle functions' CFGs and the documented cycle expressions, role resolution of level operands by member/parameter names, summary-based typestate (defect freshness, filter application, solution epochs) composed along the cycle CFGs symbolically in the level",
+    text="Decides for any number of levels, any top/coarse range, every smoother-presence combination and both fixed/adaptive coarse-grid correction: the V/F/W cycle functions emit exactly the documented rest/coarse/prol/peak event language with the right level variable and flags and loop ranges; every level operation uses the vectors of the right level and role; the defect equals rhs - A sol (fresh) at every smoother input, restriction and step-length product; every defect is filter_def-ed and every prolongated correction filter_cor-ed before use, the coarse rhs is filtered with the coarse filter; level solutions are restarted exactly when their rhs is new; missing smoothers fall back as documented; the result is handed over on every normal exit and the input defect is const; adaptive step lengths use the documented inner products.",
+    note="Trusted: clang front end, featx facts, lib/mgfacts.py, mgmodel.py, mgflow.py, the cycle expressions transcribed from multigrid.dox/function comments. Not decided: that the W-cycle counter walk visits peak levels in ruler order (data-dependent loop; freshness is proven for arbitrary peak orders instead), equality with a reference cycle as a linear map, convergence rates.",
+    design="§4 C09"),
+ "C10": dict(
+    category="other",
+    technique="symbolic extraction of the refinement templates / orientation tables from the clang facts (one symbolic iteration of the loop over coarse entities, constant loops unrolled) and a complete finite case analysis on the reference cell of each shape for every admissible orientation code",
+    text="Refinement is cell-local and table-driven, so conformity of every refined mesh reduces to a finite case analysis on the reference cell: for all six shapes and all 20 index-refiner templates every output slot is assigned exactly once with offset + children*parent + child of the matching origin dimension; for every fine cell, local face and every orientation combination (1749 evaluated) the fine face entity referenced has exactly the vertices of that local face; interior facets are referenced twice, boundary facets once; no orphan entities; child orientation and volume add up on the reference cell; the Euler alternating sum per cell is preserved; entity counters/offsets agree; the congruency sampler returns code o exactly for permutation row o and the edge/face tables are induced correctly; new vertices are parent means; mesh-part target refiners use the same child numbering as the index refiners.",
+    note="Trusted: clang front end, featx facts, lib/refine_tables.py (symbolic evaluator). Induction step only: 'coarse mesh consistent => fine mesh consistent'. Not decided: 3D-cell mesh parts (not implemented upstream), structured meshes, attribute refinement, BoundaryFactory/FacetNeighbors/IndexCalculator/MeshPermutation, chart adaptation, positivity on non-affine cells.",
+    design="§4 C10"),
+ "C12": dict(
+    technique="index-kind checking (patch entity / base entity / rank / element spaces) and coverage/guard rules over the clang facts of the patch and partitioner code",
+    text="Deliberately narrow: decides that the patch/halo factories never confuse patch, base-mesh, rank and element index spaces (lookups take base indices, target sets map patch to base, rank graphs are indexed by element), composite graph renders in extract_patch compose matching spaces, halo index lists are produced by a single ascending push (the precondition of the halo intersection), Parti2Lvl defines ptr on [0,ranks] and idx as the identity and sets success only after the count check, PartiIterative's sender/receiver broadcast identical counts. These are necessary conditions of 'each cell once / halos agree'; halo set equality between ranks and neighbour symmetry/completeness are runtime facts and are NOT decided.",
+    note="Trusted: clang front end, featx facts, lib/ikinds.py, documented parameter roles (tsh, ish, ranks_at_elem, pim, tsf) listed as assumptions. Not decided: equality of the two halos of neighbouring ranks, neighbour symmetry/completeness, survival under refinement, std::map based splitters, genetic partitioner quality.",
+    design="§4 C12"),
+ "C17": dict(
+    technique="concurrency discipline rules over the clang CFGs: guarded-by and lock-held-at-call, per-role fence event sequences matched by a happens-before graph, CFG dominance/post-dominance for the layered handshake, sympy range-partition identities, abstract dispatch contexts checked against the targets' own assertions",
+    text="Decides for all schedules, worker counts and strategies the structural conditions of race-freedom/termination: ThreadFence state is only accessed under its mutex, wait re-tests its predicate, open sets state before notifying; combine() runs only with the shared mutex held; in the layered strategy the wait on the next thread's fence dominates scatter at the wait position and the own fence is opened only after scatter at the open position; every wait result is tested; the coloured master/worker protocols match per round (every wait has an open in the other role, no stale or erased open, acyclic); worker element ranges partition [0,size); every dispatch target's assertions hold in every (id, n, strategy) context reachable from the two construction sites; unsigned worker-count arithmetic cannot wrap; all threads are joined on every exit and fences are closed before threads start.",
+    note="Trusted: clang front end, featx facts, sympy. Not decided: adjacency-freedom of colours/layers (runtime output of Coloring/_build_layers), >=2 layers per thread, equality with the serial result.",
+    design="§4 C17"),
+ "C18": dict(
+    technique="role agreement and method-parity rules, a CFG typestate for 'restriction = transpose of the stored prolongation after its last modification', weight-vector protocol rules and index-kind rules on the GridTransfer child-cell loops",
+    text="Decides for all meshes, elements and vectors: LAFEM::Transfer prol/rest/trunc apply the same-kind matrix with (result, input) in the right order and Global::Transfer delegates with parity, buffers and sync; at every transfer construction site (4 asm entry points, Stokes variants, composites, tutorial) the stored restriction is the transpose of the stored prolongation taken after its last modification on every path; weights are assembled, synchronised, inverted exactly once, then applied; in GridTransfer the fine cell comes from CoarseFineCellMapping(coarse, child) with the right permutation lookups, local matrices are M^-1 N in that order, scattered with (fine rows, coarse columns), one weight scatter per projection.",
+    note="Trusted: clang front end, featx facts, lib/dfl.py. Not decided: exactness on the coarse space, T P = I, numerical agreement of assembled and matrix-free routes, intermesh transfers.",
+    design="§4 C18"),
  "C02": dict(
     technique="custom static rules over the clang-resolved program: role agreement of the _scalar_index slots and result-constructor arguments (swapped in transposing context on every exit), perspective coherence, polynomial equality of allocated array extents, decision-table extraction of Container::clone / Container::assign against the documented CloneMode table",
     text="Decides for all matrices and chains of operations the structural part of 'dimensions and layout are carried over': every fill of a container's scalar slots in convert/transpose/permute/layout constructors receives the source quantity of the same role (rows<->columns swapped when transposing) on every exit, with all quantities of one fill in one perspective; arrays handed to result constructors were allocated with rows+1 resp. nnz x block extents; array pushes are paired with equal size pushes; Container::clone aliases/copies exactly as the CloneMode documentation says (incl. copy extents); same-type convert shares and cross-type convert copies.",
